@@ -1,5 +1,5 @@
 """C03 -- the lattice contains exactly the formal concepts of the context, once each."""
-from . import gen, pertable, c01
+from . import gen, pertable, c01, _mk
 
 PID = 'C03'
 
@@ -7,7 +7,7 @@ PID = 'C03'
 def units(tier, seed):
     if tier == 'quick':
         g = [(n, m) for n in (1, 2, 3) for m in (1, 2, 3, 4, 5, 6)] + [(4, 2), (4, 3)]
-        t = [(1, 1), (1, 3), (2, 2), (3, 1), (3, 2), (2, 3), (3, 3)]
+        t = _mk.QUICK_TABLES
     else:
         g = [(n, m) for n in (1, 2, 3, 4) for m in range(1, 9)] + [(5, 1), (5, 2), (5, 3), (6, 2)]
         t = [(n, m) for n in range(1, 5) for m in range(1, 5)]
@@ -18,8 +18,8 @@ def units(tier, seed):
     for n, m in t:
         us.append({'name': f'Lattice per table {n}x{m}', 'fn': 'unit_table', 'args': {'n': n, 'm': m},
                    'split': 7 if n * m >= 8 else 0})
-    us.sort(key=lambda u: -(u['args']['n'] ** 2 * u['args']['m']))
-    return us
+    us += _mk.inductive_units(tier) + _mk.skeleton_units(tier, seed)
+    return _mk.order(us)
 
 
 def unit_kernel(args, prefix=(), max_depth=None):
@@ -27,6 +27,9 @@ def unit_kernel(args, prefix=(), max_depth=None):
     for c in r['cex']:
         c['kind'] = f'table:{PID}'
     return r
+
+
+unit_inductive = _mk.inductive_unit_for(PID)
 
 
 def unit_lindig(args, prefix=(), max_depth=None):
